@@ -254,6 +254,15 @@ func (w *World) VerifyFunc(key string) (vc *VC, err error) {
 			}
 		}
 		fr.assignsOK = fr.mkAssignsOK(fc, env)
+		for n, lst := range fc.After {
+			// the frame of the code after loop n: the function's frame narrowed to this list
+			c2 := *fc
+			c2.Assigns, c2.HasAssigns = lst, true
+			if fr.afterOK == nil {
+				fr.afterOK = map[int]func(string, *Term, *State) *Term{}
+			}
+			fr.afterOK[n] = fr.mkAssignsOK(&c2, env)
+		}
 	}
 	res, out := fr.run(st, args, free)
 	fr.lockExit(out.reach, out.heap)
